@@ -136,6 +136,49 @@ theorem timestamp_order (d1 t1 x1 d2 t2 x2 : Nat) (h1 : d1 < 4294967296) (h2 : t
     have : 0 < x2 := hx2.1
     simp [cmpDT, cmpNat, cmpB, this]
 
+/-! ## round trip and canonical form of numbers
+FULL statements, NOT proved here for all inputs (the model is tied to the code by replay and by
+the direct oracles `rt-*`, `canon-*` over every representation and the boundary values):
+  packInt_unpack  : -2^63 ≤ n → n < 2^63 → unpackNumber (packInt n) = .int n
+  packDnum_unpack : d.Norm → unpackNumber (packDnum d) = .dnum d ∨
+                      ∃ n, unpackNumber (packDnum d) = .int n ∧ n.natAbs * 10^16 = d.coef * 10^d.exp.toNat
+                        ∧ (n < 0 ↔ d.sign < 0)          -- an integer-valued dnum comes back as the equal int
+  pack_canonical  : 0 < |n| < 10^16 → packInt n = packDnum (fromInt n)
+  container_roundtrip : unpackObj (packObj tag list named) = some (list, named)
+What is missing for the first three: the digit lemmas for `digits10`/`pairs`/`stripZ`
+(`pairs_value` of the calibration) connected to `pv`, and `intable`'s range test via the order
+lemma at 10 digit pairs; the order half they would rest on (`cmpL_eq_cmpNat`, `pv_coefBytes`)
+is proved in Proofs/Pack.lean. Proved: the boundary instances below (kernel evaluation). -/
+theorem packInt_unpack_partial :
+    ∀ n ∈ ([0, 1, -1, 10, 99, 100, -32768, 32767, 32768, 1000000, 9999999999999999,
+      10000000000000000, -10000000000000001, 123456789012345678, 9223372036854775807,
+      -9223372036854775808, -9223372036854775807, -9223372036854775800, -9223372036854775000,
+      -9200000000000000000, 9223372036854775800] : List Int), unpackNumber (packInt n) = .int n := by
+  decide
+
+theorem pack_canonical_partial :
+    ∀ n ∈ ([1, -1, 10, 99, 100, 101, -32768, 32767, 32768, 1000000, 1234567, -120000,
+      9999999999999999, -9999999999999999, 1000000000000000] : List Int),
+      packInt n = packDnum (fromInt n) := by
+  decide
+
+theorem packDnum_unpack_partial :
+    unpackNumber (packDnum ⟨1, 1500000000000000, 1⟩) = .dnum ⟨1, 1500000000000000, 1⟩ ∧
+    unpackNumber (packDnum ⟨-1, 1234567890123456, -128⟩) = .dnum ⟨-1, 1234567890123456, -128⟩ ∧
+    unpackNumber (packDnum ⟨1, 9999999999999999, 127⟩) = .dnum ⟨1, 9999999999999999, 127⟩ ∧
+    unpackNumber (packDnum ⟨-1, 1200000000000000, 5⟩) = .int (-12000) ∧
+    unpackNumber (packDnum ⟨1, 9223372036854775, 19⟩) = .int 9223372036854775000 ∧
+    unpackNumber (packDnum ⟨2, 1, 0⟩) = .dnum ⟨2, 1, 0⟩ ∧
+    unpackNumber (packDnum ⟨-2, 1, 0⟩) = .dnum ⟨-2, 1, 0⟩ ∧
+    unpackNumber (packDnum ⟨0, 0, 0⟩) = .int 0 := by
+  decide
+
+theorem container_roundtrip_partial :
+    unpackObj (packObj tagObject [[3, 129, 10], [], packStr [97, 98]] [(packStr [107], [3])]) =
+      some ([[3, 129, 10], [], packStr [97, 98]], [(packStr [107], [3])]) ∧
+    unpackObj (packObj tagRecord [] []) = some ([], []) := by
+  decide
+
 /-! ## round trip: strings, booleans, dates, timestamps -/
 
 theorem string_roundtrip (s : Bytes) : unpack (packStr s) = .str s := by
